@@ -9,14 +9,21 @@ soft / hard with estimated threshold, both BER_analizer('counter')) are run on t
 Parts
   link.words   all words of length 8 (thorough: 10) containing both symbols, at the baseline and at
                every single deviation of the configuration lattice
-  link.lattice the fixed word set on every configuration differing from the baseline in <= 2 axes
-               (thorough: <= 3)
-  ook.dsp      ook.DSP + ook.BER_analizer on 32/64/127 slots of PRBS7 / seeded-random data x k<=1
-               configurations x KMeans seed alphabet
+  link.lattice the fixed word set on every configuration differing from the baseline in <= 3 axes
+               (quick: <= 2 when one of them is an "option deviation" = optional argument / alternative
+               call form of a block: DM retH=True, FIBER defaults + show_progress, MZM pol='y' / BW,
+               DAC BW / bias, PD T / Fn / i_dark)
+  ook.dsp      ook.DSP + ook.BER_analizer on 32/64/127 slots of PRBS7 / seeded-random data x (k<=1
+               configurations (thorough k<=2) + voltage / dispersive corners + EVERY PAIR of deviations
+               among the eye-shaping axes sps, pulse, ER, PD bandwidth, channel (thorough: + every
+               triple)) x KMeans seed alphabet; + ook.DSP(BW=.) on the k<=1 configurations
   ppm.dsp      PPM_ENCODER -> link -> ppm.DSP soft and hard(estimated threshold), M in {2,4,8,16}
-               x 3 data words x k<=1 configurations x seed alphabet, + ppm.BER_analizer
+               x data words (ramp, PRBS7, seeded; + "ragged" words whose length is not a multiple of
+               log2 M) x the same configurations x seed alphabet, + ppm.BER_analizer with Tx = the data
+               handed to the encoder (longer than Rx for the ragged words)
   ber.counter  both BER_analizer('counter') on plain sequences: every way of flipping k in {1,2,3}
-               bits at positions from a small set -> exactly k/n, 0 flips -> exactly 0
+               bits at positions from a small set -> exactly k/n, 0 flips -> exactly 0, all flipped
+               -> exactly 1; Tx equal to Rx in length and Tx longer by 1..3 bits (n = compared bits)
 """
 from __future__ import annotations
 import itertools
@@ -46,9 +53,23 @@ AXES = [
     # 1pol: one-polarisation carrier.  2pol: carrier power split over x and y, MZM keeps x (the block zeroes y).
     # 2pol-rot: as 2pol, then a lossless Jones rotation of the modulated field to the -45 degree linear state
     #           (Ex, Ey) = (E, -E)/sqrt(2) so that BOTH rows are populated at the PD (harness side, unitary).
-    ('layout', ['1pol', '2pol', '2pol-rot']),
+    # 2pol-y: as 2pol, but the modulator is told to keep the y row (MZM(pol='y'), the block zeroes x).
+    ('layout', ['1pol', '2pol', '2pol-rot', '2pol-y']),
     # accumulated |beta2*L| = 0.9 % of T_slot^2, both signs, as DM(D) or FIBER(L, beta2, alpha=0.2, gamma=0)
-    ('chan', ['none', 'dm+', 'dm-', 'fiber+', 'fiber-']),
+    # documented alternative call forms of the same channel (same field expected, the link oracle is unchanged):
+    #   dmH    DM(m, D, retH=True) -> (field, H): the caller also asks for the frequency response and keeps the field
+    #   fiberD FIBER(m, L, beta_2=.) with every other argument left at its default (alpha = 0, i.e. lossless) and
+    #          show_progress=True (progress bar written to a discarded stderr)
+    ('chan', ['none', 'dm+', 'dm-', 'fiber+', 'fiber-', 'dmH+', 'dmH-', 'fiberD+', 'fiberD-']),
+    # optional arguments of the transmitter blocks that the plain link never passes:
+    #   dac-bw   DAC(BW=.)  drive low-pass, min(2R, 0.4 fs)   (a legal Bessel design needs BW < fs/2)
+    #   mzm-bw   MZM(BW=.)  optical band-pass of full width min(4R, 0.8 fs)  (the block designs a low-pass at BW/2 < fs/2)
+    #   dac-bias the bias of the drive is given to DAC(bias=-Vpi) instead of MZM(bias=-Vpi), and 'nrz' is spelt 'rect'
+    #            (documented as equivalent); the modulator sees the same voltage
+    ('txopt', ['std', 'dac-bw', 'mzm-bw', 'dac-bias']),
+    # optional arguments of PD that cannot matter with the noise switched off: temperature and amplifier noise figure
+    # (only enter the thermal variance), given non-default (T=77 K, Fn=6 dB); i_dark=0 removes the deterministic offset too
+    ('pdopt', ['std', 'alt']),
 ]
 NAMES = [a for a, _ in AXES]
 BASE = tuple(v[0] for _, v in AXES)
@@ -76,6 +97,17 @@ def lattice(k):
     return out
 
 
+# "option deviations": values that select an optional argument / alternative call form of one block (added after seeded
+# wave 3).  The thorough tier combines them with up to two other deviations (full k<=3 lattice); the quick tier with up to one
+# (k<=2), while the lattice over the remaining values stays at k<=3 in both tiers.
+OPTION_VALUES = {('layout', '2pol-y'), ('chan', 'dmH+'), ('chan', 'dmH-'), ('chan', 'fiberD+'), ('chan', 'fiberD-'),
+                 ('txopt', 'dac-bw'), ('txopt', 'mzm-bw'), ('txopt', 'dac-bias'), ('pdopt', 'alt')}
+
+
+def has_option(cfg):
+    return any((a, v) in OPTION_VALUES for a, v in zip(NAMES, cfg))
+
+
 def point(**dev):
     c = list(BASE)
     for k, v in dev.items():
@@ -100,7 +132,32 @@ CORNERS = [
     point(sps=5, pulse='gaussian'),
     point(sps=7, pulse='gaussian', chan='dm+'),
 ]
-K2_CORNERS = {point(launch=10.0, RL=1000.0), point(sps=33, chan='dm+'), point(sps=64, chan='fiber-'), point(bwf=2.0, chan='dm-')}
+K2_CORNERS = {point(launch=10.0, RL=1000.0), point(sps=33, chan='dm+'), point(sps=64, chan='fiber-'), point(bwf=2.0, chan='dm-'),
+              point(sps=4, pulse='gaussian'), point(sps=5, pulse='gaussian')}
+
+# The axes that change the SHAPE of the received eye (number of samples per slot, pulse, height of the off rail, receiver
+# smoothing, dispersive overshoot).  The other axes only scale the eye (covered by the voltage corners above), choose the
+# row the power sits in, or select a call form that yields the same field (asserted by the link parts).  The packaged
+# eye-based routines are run on EVERY pair of deviations among these axes in the quick tier (the thorough tier runs the whole
+# k<=2 lattice, and the triples among these axes for ook.DSP).
+EYE_AXES = [
+    ('sps', [4, 5, 7, 8, 33, 64]),
+    ('pulse', ['gaussian']),
+    ('ER', [10.0, 40.0]),
+    ('bwf', [0.7, 2.0]),
+    ('chan', ['dm+', 'dm-', 'fiber+', 'fiber-']),
+]
+
+
+def eye_tuples(k):
+    """valid configurations deviating from BASE in exactly k of the eye-shaping axes (all value combinations)"""
+    out = []
+    for idx in itertools.combinations(range(len(EYE_AXES)), k):
+        for vals in itertools.product(*[EYE_AXES[i][1] for i in idx]):
+            c = point(**{EYE_AXES[i][0]: v for i, v in zip(idx, vals)})
+            if valid(c):
+                out.append(c)
+    return out
 
 
 def ndev(cfg):
@@ -155,22 +212,42 @@ def flip_sets(n):
 
 
 # ------------------------------------------------------------------ the link (real blocks only)
+class CallFormError(Exception):
+    """a documented alternative call form did not return what its docstring says (reported as a violation, not a crash)"""
+
+
 def run_link(cfg, bits):
     """bits: uint8 array.  Returns the PD output (electrical_signal)."""
+    import contextlib, io
     from opticomlib.devices import DAC, MZM, DM, FIBER, PD
     from opticomlib.typing import optical_signal
     d = dict(zip(NAMES, cfg))
     sps, R = d['sps'], d['R']
     gv_reset(sps=sps, R=R)
+    fs = sps * R
     n = bits.size * sps
-    v = DAC(bits, Vout=d['Vpi'], pulse_shape=d['pulse'])
+    tx = d['txopt']
+    dac_kw = {}
+    if tx == 'dac-bw':
+        dac_kw['BW'] = min(2 * R, 0.4 * fs)
+    if tx == 'dac-bias':
+        v = DAC(bits, bias=-d['Vpi'], Vout=d['Vpi'], pulse_shape='rect' if d['pulse'] == 'nrz' else d['pulse'])
+    else:
+        v = DAC(bits, Vout=d['Vpi'], pulse_shape=d['pulse'], **dac_kw)
     P = 1e-3 * 10 ** (d['launch'] / 10)                       # launch power in W
     if d['layout'] == '1pol':
         cw = optical_signal(np.full(n, P ** 0.5))
     else:
         a = (P / 2) ** 0.5
         cw = optical_signal(np.array([np.full(n, a), np.full(n, a)]))
-    m = MZM(cw, v, bias=-d['Vpi'], Vpi=d['Vpi'], loss_dB=d['loss'], ER_dB=d['ER'])
+    mzm_kw = {}
+    if tx != 'dac-bias':
+        mzm_kw['bias'] = -d['Vpi']
+    if tx == 'mzm-bw':
+        mzm_kw['BW'] = min(4 * R, 0.8 * fs)
+    if d['layout'] == '2pol-y':
+        mzm_kw['pol'] = 'y'
+    m = MZM(cw, v, Vpi=d['Vpi'], loss_dB=d['loss'], ER_dB=d['ER'], **mzm_kw)
     if d['layout'] == '2pol-rot':
         e = np.array(m.signal[0])
         m = optical_signal(np.array([e / 2 ** 0.5, -e / 2 ** 0.5]))
@@ -178,12 +255,28 @@ def run_link(cfg, bits):
     if ch != 'none':
         T2 = (1e12 / R) ** 2                                   # slot period squared, ps^2
         D = DISP_FRACTION * T2 * (1 if ch.endswith('+') else -1)
-        if ch.startswith('dm'):
+        kind = ch.rstrip('+-')
+        if kind == 'dm':
             m = DM(m, D)
+        elif kind == 'dmH':
+            out = DM(m, D, retH=True)
+            if not (isinstance(out, tuple) and len(out) == 2 and isinstance(out[0], optical_signal)
+                    and np.shape(out[1])[-1:] == (n,)):
+                raise CallFormError(f'DM(..., retH=True) returned {type(out).__name__}'
+                                    + (f' of {[type(o).__name__ for o in out]}' if isinstance(out, tuple) else '')
+                                    + f', documented: (optical_signal, H[{n}])')
+            m = out[0]
         else:
             L = min(50.0, abs(D) / 20.0)                       # km ; beta2 = D/L  (20 ps^2/km unless that needs > 50 km)
-            m = FIBER(m, length=L, alpha=0.2, beta_2=D / L, gamma=0.0)
-    y = PD(m, BW=d['bwf'] * R, r=d['r'], R_load=d['RL'], include_noise='ase-only')
+            if kind == 'fiber':
+                m = FIBER(m, length=L, alpha=0.2, beta_2=D / L, gamma=0.0)
+            else:
+                with contextlib.redirect_stderr(io.StringIO()):
+                    m = FIBER(m, L, beta_2=D / L, show_progress=True)
+    pd_kw = {}
+    if d['pdopt'] == 'alt':
+        pd_kw = dict(T=77.0, Fn=6.0, i_dark=0.0)
+    y = PD(m, BW=d['bwf'] * R, r=d['r'], R_load=d['RL'], include_noise='ase-only', **pd_kw)
     return y
 
 
@@ -195,7 +288,8 @@ def key_class(cfg):
     """stage values that differ from the baseline stages (pulse shaper / polarisation layout / channel): a defect in one
     block shows up under the classes that contain that block, so different defects get different keys"""
     d = dict(zip(NAMES, cfg))
-    dev = [v for v, b in ((d['pulse'], 'nrz'), (d['layout'], '1pol'), (d['chan'].rstrip('+-'), 'none')) if v != b]
+    dev = [v for v, b in ((d['pulse'], 'nrz'), (d['layout'], '1pol'), (d['chan'].rstrip('+-'), 'none'), (d['txopt'], 'std'),
+                          ('pd-' + d['pdopt'], 'pd-std')) if v != b]
     return '+'.join(dev) if dev else 'base'
 
 
@@ -213,8 +307,12 @@ def link_case(case):
     sps = cfg[0]
     kc = key_class(cfg)
     # the link is run under the scripted RNG: a noise-free field through PD('ase-only') must not request a single draw
-    with scripted_rng(ScriptedRNG()) as rng:
-        y = run_link(cfg, bits)
+    try:
+        with scripted_rng(ScriptedRNG()) as rng:
+            y = run_link(cfg, bits)
+    except CallFormError as e:
+        return res(viol=[(f'link:call-form:{kc}', f'cfg={dict(zip(NAMES, cfg))} word={word}: {e}')], obs=('call-form', str(e)),
+                   nontrivial=True, stats={'link_runs': 1})
     viol = []
     if rng.requests:
         viol.append(('link:random-draw-with-noise-off', f'cfg={cfg} word={word}: the noise-free link requested random numbers: {rng.requests[:2]}'))
@@ -251,37 +349,46 @@ def link_case(case):
 
 # ------------------------------------------------------------------ case: ook.DSP + ook.BER_analizer
 def check_counter(fn, name, tx_bits, rx_seq, viol, tag):
-    """BER_analizer('counter') must be exactly 0 for rx==tx and exactly k/n for every flip set"""
+    """BER_analizer('counter') must be exactly 0 for rx == tx[:n] and exactly k/n for every flip set, n = len(rx) = the number of
+    compared bits (= the length of 'the sequence with k flipped bits' of the statement).  tx_bits may be longer than rx (the
+    data handed to PPM_ENCODER when its length is not a multiple of log2 M; both counters cut Tx to the received length)."""
     from opticomlib.typing import binary_sequence
-    n = tx_bits.size
+    n = int(np.asarray(rx_seq.data).size)
     tx = binary_sequence(tx_bits.copy())
+    ragged = '' if tx_bits.size == n else f' (Tx has {tx_bits.size} bits, Rx {n})'
+    ksfx = '' if tx_bits.size == n else ':tx-longer'
     v = fn('counter', Tx=tx, Rx=rx_seq)
     cnt = 1
     if not (v == 0):
-        viol.append((f'{name}.ber:zero', f'{tag}: BER_analizer(counter) of the decoded output = {v!r}, expected exactly 0'))
+        viol.append((f'{name}.ber:zero{ksfx}', f'{tag}: BER_analizer(counter) of the decoded output{ragged} = {v!r}, expected exactly 0'))
     for fs in flip_sets(n):
-        f = tx_bits.copy()
+        f = tx_bits[:n].copy()
         f[list(fs)] ^= 1
         v = fn('counter', Tx=tx, Rx=binary_sequence(f))
         cnt += 1
         if not (v == len(fs) / n):
-            viol.append((f'{name}.ber:k/n', f'{tag}: {len(fs)} flipped bits at {fs} of n={n}: BER_analizer(counter) = {v!r}, '
+            viol.append((f'{name}.ber:k/n{ksfx}', f'{tag}: {len(fs)} flipped bits at {fs} of n={n}{ragged}: BER_analizer(counter) = {v!r}, '
                          f'expected {len(fs)}/{n} = {len(fs)/n!r}'))
             break
     return cnt
 
 
 def ook_case(case):
-    cfg, word, seed = case
+    cfg, word, seed = case[:3]
+    dspbw = case[3] if len(case) > 3 else None      # ook.DSP(y, BW=dspbw*R): the routine's optional receiver filter
     from opticomlib import ook
     from opticomlib.typing import binary_sequence
     bits = bits_of(word)
+    tag = f'cfg={dict(zip(NAMES, cfg))} n={bits.size} word={word[:40]} kmeans_seed={seed}' + (f' DSP(BW={dspbw}R)' if dspbw else '')
     np.random.seed(seed)            # own the global RNG for the whole case (the link itself must not draw from it)
-    y = run_link(cfg, bits)
+    try:
+        y = run_link(cfg, bits)
+    except CallFormError as e:
+        return res(viol=[(f'link:call-form:{key_class(cfg)}', f'{tag}: {e}')], obs=('call-form', str(e)), nontrivial=True,
+                   stats={'ook_dsp_runs': 1})
     np.random.seed(seed)
-    out = ook.DSP(y)
+    out = ook.DSP(y) if dspbw is None else ook.DSP(y, BW=dspbw * cfg[NAMES.index('R')])
     viol = []
-    tag = f'cfg={dict(zip(NAMES, cfg))} n={bits.size} word={word[:40]} kmeans_seed={seed}'
     if not (isinstance(out, tuple) and len(out) == 3 and isinstance(out[0], binary_sequence)):
         viol.append(('ook.dsp:return-type', f'{tag}: DSP returned {type(out).__name__}'))
         return res(viol=viol, obs='type', nontrivial=True, stats={'ook_dsp_runs': 1})
@@ -290,11 +397,11 @@ def ook_case(case):
     nber = 0
     if d.size != bits.size or not np.array_equal(d, bits):
         bad = np.flatnonzero(d[:bits.size] != bits[:d.size]).tolist()[:8] if d.size else []
-        viol.append((f'ook.dsp:bits:{key_class(cfg)}', f'{tag}: DSP returned {d.size} bits, differing at {bad}; rth={rth!r} '
+        viol.append((f'ook.dsp:bits:{key_class(cfg)}' + (':dsp-bw' if dspbw else ''), f'{tag}: DSP returned {d.size} bits, differing at {bad}; rth={rth!r} '
                      f'mu0={getattr(eye_obj, "mu0", None)!r} mu1={getattr(eye_obj, "mu1", None)!r}'))
     else:
         nber = check_counter(ook.BER_analizer, 'ook', bits, rx, viol, tag)
-    return res(viol=viol, obs=(word, d.tobytes(), repr(float(rth))), nontrivial=(cfg, word),
+    return res(viol=viol, obs=(word, d.tobytes(), repr(float(rth))), nontrivial=(cfg, word, dspbw),
                stats={'ook_dsp_runs': 1, 'ber_calls': nber})
 
 
@@ -307,7 +414,18 @@ def ppm_data(M, which, seed):
         return ''.join(format(s, f'0{k}b') for s in syms)
     if which == 'prbs':
         return prbs7(k * nsym)
+    if which.startswith('ragged'):
+        # data whose length is NOT a multiple of log2 M: 16 whole symbols + r in 1..log2(M)-1 further bits that the encoder
+        # cannot send (it sends whole symbols only); the receiver must return the first k*16 bits.  r = 1 and r = log2(M)-1.
+        r = 1 if which == 'ragged1' else k - 1
+        assert 1 <= r < k
+        return seeded(k * nsym + r, seed, 200 + M + 1000 * r)
     return seeded(k * nsym, seed, 100 + M)
+
+
+def ppm_kinds(M):
+    k = int(np.log2(M))
+    return ['ramp', 'prbs', 'seeded'] + (['ragged1'] if k >= 2 else []) + (['raggedmax'] if k >= 3 else [])
 
 
 def ref_ppm_slots(data, M):
@@ -334,7 +452,13 @@ def ppm_case(case):
         viol.append(('ppm.encoder:slots', f'{tag}: PPM_ENCODER gave {"".join(map(str, sl))}, reference {"".join(map(str, ref))}'))
         return res(viol=viol, obs=('enc', sl.tobytes()), nontrivial=True, stats={'ppm_runs': 1})
     np.random.seed(seed)
-    y = run_link(cfg, sl)
+    try:
+        y = run_link(cfg, sl)
+    except CallFormError as e:
+        return res(viol=[(f'link:call-form:{key_class(cfg)}', f'{tag}: {e}')], obs=('call-form', str(e)), nontrivial=True,
+                   stats={'ppm_runs': 1})
+    k = int(np.log2(M))
+    sent = dbits[:dbits.size - dbits.size % k]      # the whole symbols = what PPM_ENCODER transmitted (asserted above)
     obs = [data, M]
     nber = 0
     for decision in ('soft', 'hard'):
@@ -345,27 +469,34 @@ def ppm_case(case):
             continue
         d = np.asarray(rx.data).astype(np.uint8)
         obs.append(d.tobytes())
-        if d.size != dbits.size or not np.array_equal(d, dbits):
+        if d.size != sent.size or not np.array_equal(d, sent):
             viol.append((f'ppm.dsp:{decision}:bits:{which}-data', f'{tag}: ppm.DSP({decision}) returned {"".join(map(str, d))}'))
         else:
+            # Tx = the data word the user handed to the encoder (longer than Rx for the ragged words)
             nber += check_counter(ppm.BER_analizer, 'ppm', dbits, rx, viol, tag + f' decision={decision}')
     return res(viol=viol, obs=tuple(obs), nontrivial=(cfg, M, data), stats={'ppm_runs': 1, 'ber_calls': nber})
 
 
 # ------------------------------------------------------------------ case: BER counters on plain sequences
+TX_EXTRA = ('', '0', '1', '01', '110')     # bits of Tx beyond the end of Rx (Tx longer than Rx: the counters compare the first len(Rx) bits)
+
+
 def ber_case(case):
-    which, word = case
+    which, word, extra = case
     from opticomlib import ook, ppm
     from opticomlib.typing import binary_sequence
     fn = ook.BER_analizer if which == 'ook' else ppm.BER_analizer
     bits = bits_of(word)
+    txb = np.concatenate([bits, bits_of(extra)]) if extra else bits
     viol = []
-    n = check_counter(fn, which, bits, binary_sequence(bits.copy()), viol, f'{which}.BER_analizer n={bits.size} word={word[:32]}')
-    # complement: every bit wrong -> exactly 1
-    v = fn('counter', Tx=binary_sequence(bits.copy()), Rx=binary_sequence(1 - bits))
+    n = check_counter(fn, which, txb, binary_sequence(bits.copy()), viol,
+                      f'{which}.BER_analizer n={bits.size} word={word[:32]} tx-extra={extra!r}')
+    # complement: every compared bit wrong -> exactly 1
+    v = fn('counter', Tx=binary_sequence(txb.copy()), Rx=binary_sequence(1 - bits))
     if not (v == 1):
-        viol.append((f'{which}.ber:k/n', f'{which}.BER_analizer: all {bits.size} bits flipped -> {v!r}, expected 1'))
-    return res(viol=viol, obs=(which, word), nontrivial=True, stats={'ber_calls': n + 1})
+        viol.append((f'{which}.ber:k/n' + (':tx-longer' if extra else ''),
+                     f'{which}.BER_analizer: all {bits.size} compared bits flipped (Tx has {txb.size} bits) -> {v!r}, expected 1'))
+    return res(viol=viol, obs=(which, word, extra), nontrivial=True, stats={'ber_calls': n + 1})
 
 
 # ------------------------------------------------------------------ driver
@@ -376,20 +507,28 @@ def run(ctx):
     nw = 8 if quick else 10
     lat1 = lattice(1)
     latk = lattice(k_lat)
+    if quick:
+        latk = [c for c in latk if ndev(c) <= 2 or not has_option(c)]
     ctx.space('config.lattice.k<=1', len(lat1))
-    ctx.space(f'config.lattice.k<={k_lat}', len(latk))
+    ctx.space(f'config.lattice.k<={k_lat}' + ('(option deviations k<=2)' if quick else ''), len(latk))
     ctx.rule(f'C03: real blocks chained DAC->MZM(CW)->[DM|FIBER gamma=0]->PD(ase-only, noise-free field)->SAMPLER(sps//2)->'
              f'threshold midway between the received level means; oracle = the transmitted word, exact equality. '
              f'Deviation lattice over {len(AXES)} axes ' + '; '.join(f'{a}{v}' for a, v in AXES) +
              f' (points with PD BW >= fs/2 dropped; |beta2*L| = {DISP_FRACTION*100:.1f}% of T_slot^2). '
              f'link.words: all {2**nw-2} words of length {nw} with both symbols x the {len(lat1)} configurations with <= 1 deviation. '
-             f'link.lattice: 8 fixed words x the {len(latk)} configurations with <= {k_lat} deviations' + ('. ' if quick else '; link.words8.k=2: all 254 words of length 8 x the configurations with exactly 2 deviations. ') +
+             f'link.lattice: 8 fixed words x the {len(latk)} configurations with <= {k_lat} deviations' +
+             (f' (<= 2 when one is an option deviation {sorted(OPTION_VALUES)})' if quick else '') + ('. ' if quick else '; link.words8.k=2: all 254 words of length 8 x the configurations with exactly 2 deviations. ') +
              f'ook.dsp (words of 32/64/127 slots, PRBS7 and seeded-random) and ppm.dsp (M in 2,4,8,16 x data words ramp/PRBS7/seeded of '
-             f'16 symbols, soft and hard with estimated threshold): the configurations with <= {1 if quick else 2} deviations plus '
+             f'16 symbols + ragged words of 16 symbols + r bits, r in {{1, log2(M)-1}}, soft and hard with estimated threshold): the '
+             f'configurations with <= {1 if quick else 2} deviations (option deviations alone) plus '
              f'{len(CORNERS)} corner points (largest/smallest received voltage, dispersive channel x finest grid / widest PD bandwidth) '
-             f'x KMeans seed alphabet {(0, 1) if quick else (0, 1, 2)}; on every decoded output both BER_analizer(counter) must give '
-             f'exactly 0 and exactly k/n for every flip set of size 1..3 over positions {FLIP_POS}; ber.counter repeats that on plain '
-             f'sequences of length 2..127')
+             f'plus every pair of deviations among the eye-shaping axes {[a for a, _ in EYE_AXES]} ({len(eye_tuples(2))} points'
+             + (', first KMeans seed, no ragged words' if quick else f'; ook.dsp also every triple, {len(eye_tuples(3))} points') + ') '
+             f'x KMeans seed alphabet {(0, 1) if quick else (0, 1, 2)}; ook.DSP(BW=min(2R, 0.4fs)) on the k<=1 configurations; '
+             f'on every decoded output both BER_analizer(counter) must give '
+             f'exactly 0 and exactly k/n (n = len(Rx) = compared bits; Tx = the data handed to the encoder, longer than Rx for ragged '
+             f'words) for every flip set of size 1..3 over positions {FLIP_POS}; ber.counter repeats that on plain '
+             f'sequences of length 2..127 with Tx longer than Rx by {TX_EXTRA}')
     ctx.assume('noise-free means: no noise attached to the optical field and PD(include_noise="ase-only"), which leaves only the '
                'deterministic dark-current offset; link.* cases run under the scripted RNG and report any random draw as a violation')
     ctx.assume('GET_EYE draws from numpy\'s global RNG through KMeans; owned by np.random.seed(s), s from a small seed alphabet, '
@@ -425,19 +564,37 @@ def run(ctx):
     # --- part 3: ook.DSP
     seeds = (0, 1) if quick else (0, 1, 2)
     ook_words = [prbs7(32), seeded(32, seed, 32), prbs7(64), seeded(64, seed, 64), prbs7(127), seeded(127, seed, 127)]
-    ook_cfgs = (lat1 + CORNERS) if quick else (lattice(2) + [c for c in CORNERS if c not in K2_CORNERS])
-    ctx.space('config.dsp', len(ook_cfgs))
-    cases = [(c, w, s) for c in ook_cfgs for w in ook_words for s in seeds]
+    # option deviations give the same field as the plain call (asserted by the link parts up to k<=3): the packaged routines see
+    # them alone (k<=1) in both tiers; the thorough tier adds every pair of the other deviations
+    base_cfgs = lat1 if quick else [c for c in lattice(2) if ndev(c) <= 1 or not has_option(c)]
+    have = set(base_cfgs)
+    extra = []
+    for c in CORNERS + eye_tuples(2):            # voltage / dispersive corners, then every pair of eye-shaping deviations
+        if c not in have:
+            have.add(c); extra.append(c)
+    dsp_cfgs = base_cfgs + extra
+    ctx.space('config.dsp', len(dsp_cfgs))
+    ctx.space('config.dsp.eye-pairs', len(eye_tuples(2)))
+    # KMeans seed alphabet: all seeds on the k<=1 (thorough k<=2) lattice and the corners; the quick tier runs the further
+    # eye pairs with the first seed only
+    pair_only = set(extra) - set(CORNERS) if quick else set()
+    seeds_of = lambda c: seeds[:1] if c in pair_only else seeds
+    cases = [(c, w, s) for c in dsp_cfgs for w in ook_words for s in seeds_of(c)]
+    # the routine's own optional argument: ook.DSP(y, BW=2R) (min(2R, 0.4 fs)) on the k<=1 configurations, first seed
+    cases += [(c, w, seeds[0], min(2.0, 0.4 * c[0])) for c in lat1 for w in ook_words]
+    if not quick:
+        # thorough: every triple of eye-shaping deviations for ook.DSP
+        cases += [(c, w, s) for c in eye_tuples(3) if c not in have for w in ook_words for s in seeds]
     ctx.pmap('ook.dsp', ook_case, cases, horizon=120)
     print(f'[C03] ook.dsp done in {time.time()-t0:.1f}s', flush=True); t0 = time.time()
 
     # --- part 4: ppm.DSP
     cases = []
-    ppm_cfgs = ook_cfgs
-    for c in ppm_cfgs:
+    for c in dsp_cfgs:
         for M in (2, 4, 8, 16):
-            for which in ('ramp', 'prbs', 'seeded'):
-                for s in seeds:
+            # the ragged data words test the length handling, not the eye: not repeated on the quick tier's extra eye pairs
+            for which in (ppm_kinds(M)[:3] if c in pair_only else ppm_kinds(M)):
+                for s in seeds_of(c):
                     cases.append((c, M, which, ppm_data(M, which, seed), s))
     ctx.pmap('ppm.dsp', ppm_case, cases, horizon=120)
     print(f'[C03] ppm.dsp done in {time.time()-t0:.1f}s', flush=True); t0 = time.time()
@@ -446,5 +603,5 @@ def run(ctx):
     bw = ['01', '10', '0110', prbs7(8), '0' * 7 + '1', prbs7(16), prbs7(32), prbs7(127), seeded(33, seed, 33)]
     if not quick:
         bw += all_words(6)
-    cases = [(which, w) for which in ('ook', 'ppm') for w in bw]
+    cases = [(which, w, x) for x in TX_EXTRA for which in ('ook', 'ppm') for w in bw]
     ctx.pmap('ber.counter', ber_case, cases, horizon=30)
